@@ -55,7 +55,8 @@ JEscByte(c) == IF c = 34 THEN <<92, 34>> ELSE IF c = 92 THEN <<92, 92>>
 JQuote(b) ==
   LET RECURSIVE Go(_)
       Go(i) == IF i > Len(b) THEN <<>> ELSE JEscByte(b[i]) \o Go(i + 1)
-  IN <<34>> \o Go(1) \o <<34>>
+  IN IF \A i \in 1..Len(b) : b[i] >= 32 /\ b[i] # 34 /\ b[i] # 92 THEN <<34>> \o b \o <<34>>     \* nothing to escape
+     ELSE <<34>> \o Go(1) \o <<34>>
 
 \* ws: insignificant white space (section 2) around every structural character
 JSep(ws)   == IF ws THEN StrToBytes(" ,\r\n\t") ELSE <<44>>
